@@ -745,6 +745,15 @@ impl Version {
         let first_key: &[u8] = &sst.first_key;
         let last_key: &[u8] = &sst.last_key;
         let upper_level = lower_level + 1;
+        // A file may only move alone when no sibling in its own level touches its key range:  the
+        // versions of one key can straddle two adjacent files of a level, newest first, and moving
+        // the first of them down would put newer versions below older ones.
+        if lower_level > 0
+            && self.levels[lower_level].lower_bound(first_key) + 1
+                != self.levels[lower_level].upper_bound(last_key)
+        {
+            return (None, i64::MIN);
+        }
         if upper_level < self.levels.len()
             && self.levels[upper_level].lower_bound(first_key)
                 == self.levels[upper_level].upper_bound(last_key)
